@@ -441,8 +441,14 @@ which is the implementation's when the answers agree bit for bit).  Its stop tes
   minimiser — repeated contractions have made it too small to see the slope (the spread of the values,
   about diameter * |gradient|, is below `tol * |f|`: the test is relative to `|f|`) while it has not reached
   the minimiser.
-Anything else — a simplex that is neither tied nor collapsed and still stops short — stays plain
-`convergence`: a violation. -/
+* `_simplex_level_set`: neither of the two, and the library's own stop test, recomputed here on the final
+  simplex, holds for the tolerance given (`rTol < tol`): the simplex is still wide (diameter at least half
+  the distance to the minimiser) but its vertices lie so close to one level set of the objective that their
+  values agree to the tolerance (thorough tier, seed 1, case c22861: 5 parameters, 6 vertices, values within
+  9e-9 of each other at distance 0.02 from the minimiser, tolerance 1.3e-9).
+All three are decided only when the implementation's run is bit for bit the run of the model of the
+unchanged algorithm (`modelSame`). Anything else — a run that differs from the model's, or a simplex that
+stops short although its own test does not hold — stays plain `convergence`: a violation. -/
 def simplexWhy (s : S) (best xs : List Float) : String :=
   match s.opt with
   | .simplex st =>
@@ -455,7 +461,12 @@ def simplexWhy (s : S) (best xs : List Float) : String :=
     let diam2 := vs.foldl (fun m a => vs.foldl (fun m b => let d := Spec.dist2 a b; if d > m then d else m) m) 0
     let pt := s.names.map (fun nm => best.getD nm 0)
     let xm := s.names.map (fun nm => xs.getD nm 0)
-    if 4 * diam2 ≤ Spec.dist2 pt xm then "_simplex_collapsed" else ""
+    if 4 * diam2 ≤ Spec.dist2 pt xm then "_simplex_collapsed"
+    else match s.tolGiven with
+      | some tol =>
+        -- DownhillSimplexMethod.cpp:16-18 / DSMStopCondition::isToleranceReached: rTol < tolerance
+        if 2.0 * Float.abs (yh - yl) / (Float.abs yh + Float.abs yl) < tol then "_simplex_level_set" else ""
+      | none => ""
   | _ => ""
 
 def verdictRun (s : S) (o : String) (t : List String) : S × String :=
